@@ -713,6 +713,24 @@ func (e *Exec) callBuiltin(caller *frame, fn *ssa.Builtin, args []Value) Value {
 	case "delete":
 		e.mapDelete(args[0].(*Map), args[1])
 		return nil
+	case "clear":
+		switch x := args[0].(type) {
+		case *Map:
+			if x != nil {
+				e.noteMapAccess(x, true)
+				x.entries = nil
+			}
+		case Slice:
+			n := e.ConcInt(x.Len)
+			for i := 0; i < n; i++ {
+				p := x.St.cell(e.o(x) + i)
+				e.noteStoreCell(x.St, p)
+				*p = zero(x.St.elem)
+			}
+		default:
+			e.unsupported("builtin clear on %T", args[0])
+		}
+		return nil
 	case "print", "println":
 		return nil
 	case "panic":
@@ -743,13 +761,6 @@ func (e *Exec) callBuiltin(caller *frame, fn *ssa.Builtin, args []Value) Value {
 			}
 		}
 		return e.norm(r)
-	case "clear":
-		if m, ok := args[0].(*Map); ok {
-			if m != nil {
-				m.entries = nil
-			}
-			return nil
-		}
 	}
 	e.unsupported("builtin %s on %T", fn.Name(), args[0])
 	return nil
